@@ -3,6 +3,8 @@
    [route_list l] is the list of (address, length) prefixes Route.current returns for the route dump l
    (code as repaired by a252649); [route_Apply true ...] are the options Route.Apply appends. *)
 From CR Require Import Model.Wildcard.
+(* Prepare binds Routes to the rtnetlink addresser's LoopbackRoutes (extracted): fresh_sources in Properties/Fresh.v *)
+From CR Require Properties.Fresh.
 From CR Require Import Proofs.WildcardSort.
 From CR Require Import Proofs.Wildcard.
 From CR Require Corr.C15.
